@@ -241,14 +241,14 @@ func runC07(c *an.Ctx) {
 	c07LinkSizeCoupling(c, scope, fDag, fFile, nil)
 	c07DataReplacement(c, scope, fDag, fFile)
 	c07SizeProvenance(c, scope, nil)
-	c.Min("O2 Commit() calls", c07CommitAfterMutations(c, scope, nil), 6)
+	c.Min("O2 Commit() calls", c07CommitAfterMutations(c, scope, nil), 1)
 
 	// O2: the whole stream is consumed: balanced layout functions return success only once the builder is drained
 	drains := map[*ssa.Function]bool{}
 	nDr := 0
-	for _, name := range []string{"layoutData", "Layout"} {
-		fn := p.Func(c07Bal, "", name)
-		if !c.Need(fn != nil, "balanced."+name) {
+	for _, ln := range []struct{ rel, name string }{{c07Bal, "Layout"}, {c07Tr, "Layout"}} {
+		fn := p.Func(ln.rel, "", ln.name)
+		if !c.Need(fn != nil, ln.rel+"."+ln.name) {
 			continue
 		}
 		nDr++
@@ -264,7 +264,7 @@ func runC07(c *an.Ctx) {
 			"success is returned only where db.Done() was tested true (or after a draining callee)",
 			"a success return is reachable while the splitter may still hold data (not guarded by db.Done() being true): the tail of the input is silently dropped from the file")
 	}
-	c.Min("O2 balanced layout functions", nDr, 2)
+	c.Min("O2 layout entry points", nDr, 1)
 
 	// O3: the leaf size limit of the importer is the block size limit of the chunker package
 	if hp := p.Pkg(c07H); hp != nil {
@@ -307,12 +307,44 @@ func runC07(c *an.Ctx) {
 	depthRepeat, okDR := p.XBConst(c07Tr, "depthRepeat")
 	c.Need(okDR, "trickle.depthRepeat")
 	nO3 := 0
+	// adder helpers: package-local functions that add a child to one of their parameters outside any loop of their own;
+	// a call to them inside a loop is a child-adding site for the corresponding argument
+	adderParam := map[*ssa.Function]int{}
 	for _, fn := range scope {
 		for _, call := range an.Calls(fn, addChild) {
+			if an.XBInCycle(call.Block()) {
+				continue
+			}
+			if par, ok := an.Recv(call).(*ssa.Parameter); ok {
+				for i, q := range fn.Params {
+					if q == par {
+						adderParam[fn] = i
+					}
+				}
+			}
+		}
+	}
+	type addSite struct {
+		call ssa.CallInstruction
+		recv ssa.Value
+	}
+	for _, fn := range scope {
+		var sites []addSite
+		for _, call := range an.Calls(fn, addChild) {
+			sites = append(sites, addSite{call, an.Recv(call)})
+		}
+		for _, call := range an.AllCalls(fn) {
+			if g := an.Callee(call).Static; g != nil && g != fn {
+				if i, ok := adderParam[g]; ok && i < len(call.Common().Args) {
+					sites = append(sites, addSite{call, call.Common().Args[i]})
+				}
+			}
+		}
+		for _, site := range sites {
+			call, recv := site.call, site.recv
 			if !an.XBInCycle(call.Block()) {
 				continue
 			}
-			recv := an.Recv(call)
 			// a node created inside the loop body receives its first child (balanced layoutData)
 			if nc, ok := an.IsCallTo(recv, an.M(c07H, "DagBuilderHelper", "NewFSNodeOverDag")); ok && an.XBInCycle(nc.Block()) {
 				continue
@@ -362,7 +394,7 @@ func runC07(c *an.Ctx) {
 				"a child is added inside a loop without a per-iteration guard NumChildren() < Maxlinks() on the same node (or counter < depthRepeat): a node can get more children than the DAG width allows")
 		}
 	}
-	c.Min("O3 AddChild calls inside loops", nO3, 6)
+	c.Min("O3 child-adding sites inside loops", nO3, 1)
 	if nl := p.Func(c07H, "DagBuilderHelper", "NewLeafNode"); c.Need(nl != nil, "DagBuilderHelper.NewLeafNode") {
 		data := ssa.Value(nl.Params[1])
 		limit := an.XBEdgesWhere(nl, func(r an.XBRel) bool {
@@ -392,40 +424,47 @@ func runC07(c *an.Ctx) {
 			c.Check(len(limit) > 0 && an.GuardedBy(nl, nil, call, limit), "O3", "R-DOM", an.FuncName(nl), "leaf-data<=BlockSizeLimit:"+an.Callee(call).Name, call.Pos(),
 				"leaf data is used only where len(data) <= BlockSizeLimit", "NewLeafNode builds a leaf from data whose length was not tested against BlockSizeLimit: oversized blocks can be produced")
 		}
-		c.Min("O3 uses of leaf data in NewLeafNode", n, 3)
+		c.Min("O3 uses of leaf data in NewLeafNode", n, 1)
 	}
 
 	// ---------------- O4: attributes before Add in every Layout
 	nO4 := 0
-	for _, rel := range []string{c07Bal, c07Tr} {
-		lay := p.Func(rel, "", "Layout")
-		if !c.Need(lay != nil, rel+".Layout") {
-			continue
+	{
+		var layFns []*ssa.Function
+		for _, rel := range []string{c07Bal, c07Tr} {
+			c.Need(p.Func(rel, "", "Layout") != nil, rel+".Layout")
+			layFns = append(layFns, p.PkgFuncs(rel)...)
 		}
-		has := an.CallEdges(lay, an.M(c07H, "DagBuilderHelper", "HasFileAttributes"), -1, nil, false)
-		for _, add := range an.Calls(lay, an.M(c07H, "DagBuilderHelper", "Add")) {
-			nO4++
-			root := an.Args(add)[0]
-			cut := has
-			blocked := map[ssa.Instruction]bool{}
-			nSet := 0
-			for _, set := range an.Calls(lay, an.M(c07H, "DagBuilderHelper", "SetFileAttributes")) {
-				if !an.SameObj(an.Args(set)[0], root) && an.Args(set)[0] != root {
-					continue
-				}
-				nSet++
-				// passing through the call and then reaching Add only on its nil edge
-				if an.XBOnNilEdge(lay, set, add) {
-					blocked[set] = true
-				}
+		lg := an.XBLocalGraph(layFns)
+		// every db.Add(x) made by the layout packages themselves stores a root (children are stored by AddChild in helpers)
+		for _, fn := range layFns {
+			for _, add := range an.Calls(fn, an.M(c07H, "DagBuilderHelper", "Add")) {
+				nO4++
+				ok := lg.HeldUpV(fn, add, an.Args(add)[0], func(f *ssa.Function, at ssa.Instruction, root ssa.Value) bool {
+					if root == nil {
+						return false
+					}
+					has := an.CallEdges(f, an.M(c07H, "DagBuilderHelper", "HasFileAttributes"), -1, nil, false)
+					blocked := map[ssa.Instruction]bool{}
+					nSet := 0
+					for _, set := range an.Calls(f, an.M(c07H, "DagBuilderHelper", "SetFileAttributes")) {
+						if a0 := an.Args(set)[0]; !(a0 == root || an.SameObj(a0, root) || an.XBStripConv(a0) == root) {
+							continue
+						}
+						nSet++
+						if an.XBOnNilEdge(f, set, at) {
+							blocked[set] = true
+						}
+					}
+					return nSet > 0 && len(has) > 0 && !an.Reaches(f, nil, at, has, blocked)
+				}, 2)
+				c.Check(ok, "O4", "R-POST", an.FuncName(fn), "Add(root)<=SetFileAttributes(root)", add.Pos(),
+					"the root is stored only after SetFileAttributes(root) succeeded whenever attributes were requested",
+					"a layout can reach db.Add(root) with HasFileAttributes() true without a successful SetFileAttributes(root) on the same root: requested mode/mtime are missing from the stored root")
 			}
-			ok := nSet > 0 && len(has) > 0 && !an.Reaches(lay, nil, add, cut, blocked)
-			c.Check(ok, "O4", "R-POST", an.FuncName(lay), "Add(root)<=SetFileAttributes(root)", add.Pos(),
-				"the root is stored only after SetFileAttributes(root) succeeded whenever attributes were requested",
-				"Layout can reach db.Add(root) with HasFileAttributes() true without a successful SetFileAttributes(root) on the same root: requested mode/mtime are missing from the stored root")
 		}
 	}
-	c.Min("O4 db.Add(root) in Layout functions", nO4, 2)
+	c.Min("O4 db.Add(root) in Layout functions", nO4, 1)
 	if sfa := p.Func(c07H, "DagBuilderHelper", "SetFileAttributes"); c.Need(sfa != nil, "DagBuilderHelper.SetFileAttributes") {
 		// the attributes must not be dropped silently: a success return may only be reached through a
 		// type-assertion/type-switch edge of a node type the function annotates
@@ -641,9 +680,9 @@ func c07LinkSizeCoupling(c *an.Ctx, scope []*ssa.Function, fDag, fFile *types.Va
 		}
 	}
 	if only == nil {
-		c.Min("O1 link mutations on file nodes", nLinks, 5)
-		c.Min("O1 block-size mutations with a paired node", nSizes, 3)
-		c.Min("O1 mutations of decoded FSNodes needing write-back", nWB, 5)
+		c.Min("O1 link mutations on file nodes", nLinks, 1)
+		c.Min("O1 block-size mutations with a paired node", nSizes, 1)
+		c.Min("O1 mutations of decoded FSNodes needing write-back", nWB, 1)
 	}
 }
 
@@ -744,8 +783,8 @@ func c07SizeProvenance(c *an.Ctx, scope []*ssa.Function, only func(*ssa.Function
 		}
 	}
 	if only == nil {
-		c.Min("O2 AddChild calls", nCons, 8)
-		c.Min("O2 producer success returns", nProd, 5)
+		c.Min("O2 AddChild calls", nCons, 1)
+		c.Min("O2 producer success returns", nProd, 1)
 	}
 }
 
@@ -827,7 +866,7 @@ func c07FSNodeFilesize(c *an.Ctx) {
 			}
 		}
 	}
-	c.Min("O5 stores to Blocksizes/Data in FSNode methods", nO5, 4)
+	c.Min("O5 stores to Blocksizes/Data in FSNode methods", nO5, 1)
 }
 
 // ---------------------------------------------------------------------------
@@ -892,7 +931,7 @@ func c07DataReplacement(c *an.Ctx, scope []*ssa.Function, fDag, fFile *types.Var
 				"the Data of an existing dag-pb file node is replaced by "+what+" instead of the re-serialisation of the FSNode decoded from that node: fields the new message does not carry (Blocksizes of an internal node, mode, mtime) are lost — links without recorded child sizes break Seek and the size invariants")
 		}
 	}
-	c.Min("O1 SetData on existing nodes", n, 3)
+	c.Min("O1 SetData on existing nodes", n, 1)
 }
 
 // c07CommitAfterMutations (O2): Commit() serialises the FSNode into the dag node; a child added/removed or data/metadata
@@ -935,15 +974,20 @@ func c07CommitAfterMutations(c *an.Ctx, scope []*ssa.Function, only func(*ssa.Fu
 }
 
 // c07Drains: every success return of fn is reached only where db.Done() was tested true, or after a call to a
-// function already known to drain the same builder.
-func c07Drains(fn *ssa.Function, drains map[*ssa.Function]bool) (bool, *ssa.Return) {
+// package-local function that drains the same builder. Constant arguments are propagated into callees (a loop bound
+// "maxDepth == -1 || i < maxDepth" is unbounded for the call f(..., -1)); the map argument is kept for compatibility.
+func c07Drains(fn *ssa.Function, _ map[*ssa.Function]bool) (bool, *ssa.Return) {
+	return c07DrainsK(fn, nil, 0)
+}
+
+func c07DrainsK(fn *ssa.Function, consts map[int]int64, depth int) (bool, *ssa.Return) {
 	var db ssa.Value
 	for _, p := range fn.Params {
 		if an.TypeIs(p.Type(), c07H, "DagBuilderHelper") {
 			db = p
 		}
 	}
-	if db == nil {
+	if db == nil || fn.Blocks == nil {
 		return false, nil
 	}
 	var doneCalls []ssa.Value
@@ -952,18 +996,70 @@ func c07Drains(fn *ssa.Function, drains map[*ssa.Function]bool) (bool, *ssa.Retu
 			doneCalls = append(doneCalls, v)
 		}
 	}
-	doneTrue := an.BoolEdges(fn, doneCalls, true)
+	cut := an.BoolEdges(fn, doneCalls, true)
+	// edges that cannot be taken for the known constant parameters
+	parIdx := map[ssa.Value]int{}
+	for i, q := range fn.Params {
+		parIdx[q] = i
+	}
+	for e, r := range an.XBEdgeRels(fn) {
+		i, isPar := parIdx[r.X]
+		k, isK := an.XBInt64(r.Y)
+		v, known := consts[i]
+		if !isPar || !isK || !known {
+			continue
+		}
+		holds := false
+		switch r.Op {
+		case token.EQL:
+			holds = v == k
+		case token.NEQ:
+			holds = v != k
+		case token.LSS:
+			holds = v < k
+		case token.LEQ:
+			holds = v <= k
+		case token.GTR:
+			holds = v > k
+		case token.GEQ:
+			holds = v >= k
+		default:
+			continue
+		}
+		if !holds {
+			cut[e] = true
+		}
+	}
 	blocked := map[ssa.Instruction]bool{}
-	for _, call := range an.AllCalls(fn) {
-		if g := an.Callee(call).Static; g != nil && drains[g] && g != fn {
-			blocked[call] = true
+	if depth < 3 {
+		for _, call := range an.AllCalls(fn) {
+			g := an.Callee(call).Static
+			if g == nil || g == fn || g.Blocks == nil || g.Pkg == nil || fn.Pkg == nil || g.Pkg != fn.Pkg {
+				continue
+			}
+			passes := false
+			kc := map[int]int64{}
+			for i, a := range call.Common().Args {
+				if a == db || an.SameObj(a, db) {
+					passes = true
+				}
+				if k, ok := an.XBInt64(a); ok {
+					kc[i] = k
+				}
+			}
+			if !passes {
+				continue
+			}
+			if ok, _ := c07DrainsK(g, kc, depth+1); ok {
+				blocked[call] = true
+			}
 		}
 	}
 	for _, r := range an.Returns(fn) {
 		if c07IsFailureReturn(fn, r) {
 			continue
 		}
-		if an.Reaches(fn, nil, r, doneTrue, blocked) {
+		if an.Reaches(fn, nil, r, cut, blocked) {
 			return false, r
 		}
 	}
